@@ -47,7 +47,7 @@ CONSTANTS NRand, RandSeed
 Lcg(x) == (x * 75 + 74) % 65537
 RECURSIVE LcgN(_, _)
 LcgN(x, n) == IF n = 0 THEN x ELSE LcgN(Lcg(x), n - 1)
-R(i, k) == LcgN(((i * 7919 * ((2 * k) + 1)) + (k * k * 31) + (RandSeed * 10473) + 17) % 65537, 3)   \* (a different multiplier per parameter)
+R(i, k) == LcgN(((((i * 7919) % 65537) * ((2 * k) + 1)) + (k * k * 31) + ((RandSeed % 65537) * 10473) + 17) % 65537, 3)   \* (a different multiplier per parameter)
 Pow10 == <<1, 10, 100, 1000, 10000>>
 RandInit == /\ \E i \in 1..NRand :
                  /\ rem = ((R(i, 2) % 1000) + 1) * Pow10[(R(i, 1) % 5) + 1]
